@@ -195,7 +195,11 @@ def run_check(mod, tier: str, seed: int, jobs: int, cap_s: float | None = None) 
         a = mod.run_shard(shards[0])
         b = mod.run_shard(shards[0])
         if (a.evals, sorted(map(str, a.outcomes)), a.n_viols) != (b.evals, sorted(map(str, b.outcomes)), b.n_viols):
-            raise HarnessError('non-deterministic shard: two executions of shard 0 differ')
+            if total.n_viols == 0:
+                raise HarnessError('non-deterministic shard: two executions of shard 0 differ')
+            # violations were found AND the code under test behaves differently from run to run (e.g. results
+            # that depend on memory addresses): report the violations; the replay files say what was observed
+            print('NOTE: two executions of shard 0 differ (behaviour of the code under test is not reproducible run-to-run)')
 
     if hasattr(mod, 'finalize'):
         mod.finalize(total, tier)
